@@ -36,6 +36,7 @@ func checkC16(c *Ctx) {
 	}
 	// a rejected initialize must reach the client as a failure: the error envelope is handed on whole
 	c02ErrorEnvelope(c)
+	c16CtorState(c)
 }
 
 // ---------------------------------------------------------------- version
